@@ -398,3 +398,8 @@ proof fn lemma_cwv_post<P: AsRef<str>, V>(nfa: NfaBuilder<char, V>, st: Seq<Stat
     if kind is Standard { lemma_searches_ok_cw(nfa, st, tb, asz, idmap); }
     assert(nfa.states@.len() == num_states + 1 && st.len() >= nfa.states@.len());
 }
+
+// ---- `build`: the value of pattern j is the conversion of its position ----
+spec fn conv_ok<V: TryFrom<usize>>(j: int) -> bool { <V as vstd::std_specs::convert::TryFromSpec<usize>>::try_from_spec(j as usize).is_ok() }
+spec fn conv_val<V: TryFrom<usize>>(j: int) -> V { match <V as vstd::std_specs::convert::TryFromSpec<usize>>::try_from_spec(j as usize) { Ok(v) => v, Err(_) => arbitrary() } }
+spec fn indexed<P, V: TryFrom<usize>>(ps: Seq<P>) -> Seq<(P, V)> { Seq::new(ps.len(), |j: int| (ps[j], conv_val::<V>(j))) }
